@@ -3,6 +3,7 @@ package checks
 import (
 	"encoding/json"
 	"fmt"
+	"math/big"
 	"os"
 	"sort"
 	"strings"
@@ -54,6 +55,7 @@ type c17World struct {
 	root sdk.Context
 	ms   cpctypes.MsgServer
 	gov  string
+	obs  func(class string) // optional: receives the class of every exposure observation
 }
 
 type c17Case struct {
@@ -64,12 +66,25 @@ type c17Case struct {
 	// Ghost, when set, is executed on a branch of the state reached by Path[:len-1] that is thrown away before the last
 	// operation of Path runs on that state (a failed transaction, a simulation, a check-state run).
 	Ghost *c17Op `json:"ghost,omitempty"`
+	// Scale, when set, names a state of the scale pass (c17_scale.go): a registry grown to N contracts with a pattern of
+	// disabled ones.
+	Scale *c17Scale `json:"scale,omitempty"`
 }
 
 func c17Setup(c c17Case) *c17World {
 	cfg := world.Config{NumWallets: 2, DeployErc20: c.Erc20, DeployStaking: c.Staking}
 	if c.WlGen {
 		cfg.CpcWhitelist = []string{world.NewAcct("wal1").Bech()}
+	}
+	if c.Scale != nil {
+		// one denomination with genesis supply per contract to deploy, all held by a bystander account (the accounts that
+		// send the probes keep their three-denomination balances)
+		var coins sdk.Coins
+		for _, d := range c17ScaleDenoms(c.Scale.N) {
+			coins = coins.Add(sdk.NewInt64Coin(d, 1_000_000))
+		}
+		holder := sdk.AccAddress(common.HexToAddress("0x00000000000000000000000000000000005ca1e0").Bytes())
+		cfg.Extra = []world.ExtraAccount{{Account: authtypes.NewBaseAccountWithAddress(holder), Coins: coins}}
 	}
 	w := world.New(cfg)
 	w.Block(nil)
@@ -88,10 +103,28 @@ func (cw *c17World) auth(name string) string {
 	panic("authority " + name)
 }
 
+// metas is the reference set of registrations: every record under the metadata prefix of the cpc KV store seen through
+// ctx, read with a raw iterator and decoded with the codec (never through the keeper's own listing, which is what feeds
+// the EVM and therefore part of what is under test), in address (= key) order.
 func (cw *c17World) metas(ctx sdk.Context) []cpctypes.CustomPrecompiledContractMeta {
-	ms := cw.w.App.CPCKeeper.GetAllCustomPrecompiledContractsMeta(ctx)
-	sort.Slice(ms, func(i, j int) bool { return string(ms[i].Address) < string(ms[j].Address) })
+	ms, _ := cw.storedMetas(ctx)
 	return ms
+}
+
+// storedMetas also reports records whose key does not match the address inside the record.
+func (cw *c17World) storedMetas(ctx sdk.Context) (ms []cpctypes.CustomPrecompiledContractMeta, badKeys []string) {
+	it := storetypes.KVStorePrefixIterator(ctx.KVStore(cw.w.Keys[cpctypes.StoreKey]), cpctypes.KeyPrefixCustomPrecompiledContractMeta)
+	defer it.Close()
+	for ; it.Valid(); it.Next() {
+		var m cpctypes.CustomPrecompiledContractMeta
+		cw.w.Enc.Codec.MustUnmarshal(it.Value(), &m)
+		if k := it.Key()[len(cpctypes.KeyPrefixCustomPrecompiledContractMeta):]; string(k) != string(m.Address) {
+			badKeys = append(badKeys, fmt.Sprintf("key %x holds the record of %x", k, m.Address))
+		}
+		ms = append(ms, m)
+	}
+	sort.SliceStable(ms, func(i, j int) bool { return string(ms[i].Address) < string(ms[j].Address) })
+	return ms, badKeys
 }
 
 // exec applies op on a branch; a refused operation returns the parent state untouched (as a failed tx would).
@@ -161,13 +194,34 @@ func viewData(t uint32) []byte {
 	return Sel("name()")
 }
 
-// invariants evaluates the registry invariants and the exposure oracle in one state.
+// invariants evaluates the registry invariants and the exposure oracle (for every registered contract) in one state.
 func (cw *c17World) invariants(parent, ctx sdk.Context, op *c17Op, okOp bool) (bad []struct{ clause, sig, detail string }) {
+	return cw.invariantsAt(parent, ctx, op, okOp, nil)
+}
+
+// abiString is the ABI encoding of a single string return value.
+func abiString(s string) []byte {
+	out := append(Word(big.NewInt(32)), Word(big.NewInt(int64(len(s))))...)
+	return append(out, common.RightPadBytes([]byte(s), (len(s)+31)/32*32)...)
+}
+
+// invariantsAt is invariants with the exposure oracle restricted to the registered contracts at the positions sel (in
+// address order; nil = every registered contract) and their unregistered successors; the registry invariants always
+// cover the whole registry.
+func (cw *c17World) invariantsAt(parent, ctx sdk.Context, op *c17Op, okOp bool, sel map[int]bool) (bad []struct{ clause, sig, detail string }) {
 	fail := func(clause, sig, f string, a ...interface{}) {
 		bad = append(bad, struct{ clause, sig, detail string }{clause, sig, fmt.Sprintf(f, a...)})
 	}
+	obs := func(class string) {
+		if cw.obs != nil {
+			cw.obs(class)
+		}
+	}
 	k := cw.w.App.CPCKeeper
-	metas := cw.metas(ctx)
+	metas, badKeys := cw.storedMetas(ctx)
+	for _, bk := range badKeys {
+		fail("addresses-unique", "", "%s", bk)
+	}
 	seen := map[common.Address]bool{}
 	byDenom := map[string][]common.Address{}
 	for _, m := range metas {
@@ -248,12 +302,18 @@ func (cw *c17World) invariants(parent, ctx sdk.Context, op *c17Op, okOp bool) (b
 	}
 	// exposure: exactly the registered enabled contracts answer, in every execution mode
 	cands := map[common.Address]*cpctypes.CustomPrecompiledContractMeta{}
+	pos := map[common.Address]int{} // 1-based position in address order; of the predecessor for an unregistered successor
 	for i := range metas {
+		if sel != nil && !sel[i] {
+			continue
+		}
 		a := common.BytesToAddress(metas[i].Address)
+		pos[a] = i + 1
 		cands[a] = &metas[i]
 		plus := common.BigToAddress(new(bigIntT).Add(new(bigIntT).SetBytes(a.Bytes()), bigOne))
 		if !seen[plus] {
 			cands[plus] = nil
+			pos[plus] = i + 1
 		}
 	}
 	b, _ := ctx.CacheContext()
@@ -281,13 +341,29 @@ func (cw *c17World) invariants(parent, ctx sdk.Context, op *c17Op, okOp bool) (b
 			}
 			data := viewData(t)
 			for _, mode := range []string{"deliver", "check", "recheck", "ethcall", "create", "ethcall-create"} {
-				answered, err := cw.probe(ctx, mode, a, data)
+				ret, err := cw.probe(ctx, mode, a, data)
+				answered := len(ret) > 0
 				if answered != want {
 					sig := ""
 					if m != nil && m.Disabled && answered {
 						sig = "C17/disabled-contract-still-callable"
 					}
-					fail("exactly-registered-enabled-contracts-callable", sig, "%s (registered=%v disabled=%v) in %s mode: answered=%v err=%v", a.Hex(), m != nil, m != nil && m.Disabled, mode, answered, err)
+					fail("exactly-registered-enabled-contracts-callable", sig, "%s (registered=%v disabled=%v; %d contracts registered, this one at or after #%d in address order) in %s mode: answered=%v err=%v", a.Hex(), m != nil, m != nil && m.Disabled, len(metas), pos[a], mode, answered, err)
+					obs("exposure/wrong")
+					continue
+				}
+				switch {
+				case m == nil:
+					obs("exposure/unregistered-silent")
+				case m.Disabled:
+					obs("exposure/disabled-silent")
+				default:
+					obs("exposure/enabled-answers")
+					// the answer is the answer of the contract registered at that very address: name() of an ERC-20 /
+					// staking precompile is the name in its stored record
+					if m.CustomPrecompiledType != cpctypes.CpcTypeBech32 && string(ret) != string(abiString(m.Name)) {
+						fail("exactly-registered-enabled-contracts-callable", "", "%s in %s mode answers name() with %x, its stored record says %q", a.Hex(), mode, ret, m.Name)
+					}
 				}
 			}
 		}
@@ -305,7 +381,8 @@ func (cw *c17World) storedParams(ctx sdk.Context) (p cpctypes.Params) {
 	return p
 }
 
-func (cw *c17World) probe(ctx sdk.Context, mode string, a common.Address, data []byte) (answered bool, err error) {
+// probe returns what a view call to a answers in one execution mode (nil: nothing, or the call failed).
+func (cw *c17World) probe(ctx sdk.Context, mode string, a common.Address, data []byte) (answer []byte, err error) {
 	b, _ := ctx.CacheContext()
 	from := cw.w.Wallets[1].Eth()
 	// constructor code that STATICCALLs the candidate with the view call data and installs the answer as runtime code:
@@ -315,13 +392,13 @@ func (cw *c17World) probe(ctx sdk.Context, mode string, a common.Address, data [
 	case "create":
 		defer func() {
 			if r := recover(); r != nil {
-				answered, err = false, fmt.Errorf("panic: %v", r)
+				answer, err = nil, fmt.Errorf("panic: %v", r)
 			}
 		}()
 		k := cw.w.App.EvmKeeper
 		cfg, e := k.EVMConfig(b, nil)
 		if e != nil {
-			return false, e
+			return nil, e
 		}
 		zero := new(bigIntT)
 		msg := ethtypes.NewMessage(from, nil, cw.w.Nonce(b, from), zero, 300_000, zero, zero, zero, initCode, nil, true)
@@ -329,19 +406,19 @@ func (cw *c17World) probe(ctx sdk.Context, mode string, a common.Address, data [
 		evm := k.NewEVM(b, msg, cfg, evmtypes.NewNoOpTracer(), sdb)
 		code, _, _, e := evm.Create(corevm.AccountRef(from), initCode, 300_000, zero)
 		if e != nil {
-			return false, e
+			return nil, e
 		}
-		return len(code) > 0, nil
+		return code, nil
 	case "ethcall-create":
 		args, _ := json.Marshal(evmtypes.TransactionArgs{From: &from, Data: (*hexutil.Bytes)(&initCode)})
 		res, e := cw.w.App.EvmKeeper.EthCall(b, &evmtypes.EthCallRequest{Args: args, GasCap: 1_000_000})
 		if e != nil {
-			return false, e
+			return nil, e
 		}
 		if res.VmError != "" {
-			return false, fmt.Errorf("%s", res.VmError)
+			return nil, fmt.Errorf("%s", res.VmError)
 		}
-		return len(res.Ret) > 0, nil
+		return res.Ret, nil
 	case "deliver":
 	case "check":
 		b = b.WithIsCheckTx(true)
@@ -351,21 +428,21 @@ func (cw *c17World) probe(ctx sdk.Context, mode string, a common.Address, data [
 		args, _ := json.Marshal(evmtypes.TransactionArgs{From: &from, To: &a, Data: (*hexutil.Bytes)(&data)})
 		res, e := cw.w.App.EvmKeeper.EthCall(b, &evmtypes.EthCallRequest{Args: args, GasCap: 1_000_000})
 		if e != nil {
-			return false, e
+			return nil, e
 		}
 		if res.VmError != "" {
-			return false, fmt.Errorf("%s", res.VmError)
+			return nil, fmt.Errorf("%s", res.VmError)
 		}
-		return len(res.Ret) > 0, nil
+		return res.Ret, nil
 	}
 	r := CallEVM(cw.w, b, from, a, data, nil, 200_000)
 	if r.Panic != "" {
-		return false, fmt.Errorf("panic: %s", r.Panic)
+		return nil, fmt.Errorf("panic: %s", r.Panic)
 	}
 	if r.Err != nil {
-		return false, r.Err
+		return nil, r.Err
 	}
-	return len(r.Ret) > 0, nil
+	return r.Ret, nil
 }
 
 func c17Alphabet(thorough bool) []c17Op {
@@ -542,6 +619,8 @@ func runC17(replay string) int {
 		"messages are driven through ValidateBasic + the real cpc message server on CacheContext branches; a refused message or a panic in the handler discards the branch as baseapp does",
 		"set-meta is the keeper operation an upgrade handler would use (SetCustomPrecompiledContractMeta(meta, false))",
 		"exposure is probed with a view call through the real NewEVM in deliver / check / re-check contexts, through the EthCall query, and from constructor code of a creation message (real NewEVM + evm.Create, and EthCall without recipient)",
+		"the reference set of registrations is read from the cpc KV store with a raw prefix iterator, not through the keeper's listing (which feeds the EVM)",
+		"scale pass: registries are grown by DeployErc20Contract messages through the real message server on one branch of the committed state (as the successful transactions of one block), one denomination with genesis supply (held by a bystander account) per contract",
 	}
 	if replay != "" {
 		return replayCase(run, replay, func(raw json.RawMessage) []ev.Finding {
@@ -549,6 +628,9 @@ func runC17(replay string) int {
 			if err := json.Unmarshal(raw, &c); err != nil {
 				fmt.Fprintln(os.Stderr, err)
 				os.Exit(2)
+			}
+			if c.Scale != nil {
+				return c17ScaleReplay(c)
 			}
 			cw := c17Setup(c)
 			ctx := cw.root
@@ -590,8 +672,20 @@ func runC17(replay string) int {
 	if run.Thorough() {
 		depth, budget = 7, 1200
 	}
-	run.Sharded(len(worlds), func(shard, n int) {
+	scale := c17ScalePlan(run.Thorough())
+	shards := len(worlds) + len(scale)
+	if s := Shards(); shards > s {
+		shards = s
+	}
+	run.Sharded(shards, func(shard, n int) {
 		dl := ev.NewDeadline(secs(budget))
+		// the scale units go to the shards after those of the worlds (and wrap around when there are fewer shards)
+		var mine []c17ScaleTask
+		for j, u := range scale {
+			if (len(worlds)+j)%n == shard {
+				mine = append(mine, u...)
+			}
+		}
 		for i, c := range worlds {
 			if i%n != shard {
 				continue
@@ -599,6 +693,7 @@ func runC17(replay string) int {
 			c17GhostPass(run, c, alpha)
 			c17Search(run, c, alpha, depth, dl)
 		}
+		c17ScalePass(run, mine)
 	})
 	run.Coverage["states"] = run.NumDistinct()
 	run.Coverage["traces_validated_against_impl"] = int(run.Counter("transitions"))
@@ -606,6 +701,7 @@ func runC17(replay string) int {
 		run.Coverage["exhaustive"] = true
 	}
 	run.Coverage["max_depth"] = depth
-	run.Coverage["rule"] = fmt.Sprintf("BFS over branch states from 8 worlds (cpc genesis flags DeployErc20 × DeployStaking × whitelist at genesis) with a %d-op alphabet: UpdateParams (authority gov/other × whitelist × protocol version 0/1/2), DeployErc20Contract (authority whitelisted/other/gov × denom {wei, utwo, no-supply, empty, padded} × metadata at validation boundaries), DeployStakingContract, and the upgrade-handler keeper op SetCustomPrecompiledContractMeta (disable / enable / change type) to depth %d; registry invariants and the exposure oracle (view call to every registered address, its successor, the next dynamic address and fixed foreign addresses in deliver/check/recheck/EthCall modes and from the constructor of a creation message) evaluated in every distinct state; ghost pass: in the root state and every state one operation away, every accepted parameter update is executed on a discarded branch and every operation of the alphabet must then behave exactly as without it", len(alpha), depth)
+	run.Coverage["rule"] = fmt.Sprintf("BFS over branch states from 8 worlds (cpc genesis flags DeployErc20 × DeployStaking × whitelist at genesis) with a %d-op alphabet: UpdateParams (authority gov/other × whitelist × protocol version 0/1/2), DeployErc20Contract (authority whitelisted/other/gov × denom {wei, utwo, no-supply, empty, padded} × metadata at validation boundaries), DeployStakingContract, and the upgrade-handler keeper op SetCustomPrecompiledContractMeta (disable / enable / change type) to depth %d; registry invariants and the exposure oracle (view call to every registered address, its successor, the next dynamic address and fixed foreign addresses in deliver/check/recheck/EthCall modes and from the constructor of a creation message) evaluated in every distinct state; ghost pass: in the root state and every state one operation away, every accepted parameter update is executed on a discarded branch and every operation of the alphabet must then behave exactly as without it; %s", len(alpha), depth, c17ScaleRule(scale))
+	run.Coverage["scale_sizes"] = c17ScaleSizes(scale)
 	return run.Finish()
 }
